@@ -21,6 +21,14 @@ class _Ret(Exception):
         self.v = v
 
 
+class _Continue(Exception):
+    pass
+
+
+class _Break(Exception):
+    pass
+
+
 class DictInterp:
     def __init__(self, module, depth=0):
         self.module = module
@@ -63,7 +71,16 @@ class DictInterp:
             items = self.iterate(s.iter, env)
             for it in items:
                 self.bind(s.target, it, env)
-                self.block(s.body, env)
+                try:
+                    self.block(s.body, env)
+                except _Continue:
+                    continue
+                except _Break:
+                    break
+        elif isinstance(s, ast.Continue):
+            raise _Continue()
+        elif isinstance(s, ast.Break):
+            raise _Break()
         elif isinstance(s, ast.If):
             if self.truth(s.test, env):
                 self.block(s.body, env)
